@@ -118,6 +118,58 @@ CLAIMS = {
              'char boundaries, schedules.',
         technique='unsafe-operation inventory from MIR/HIR + per-class provenance / dominance / constant-byte-set rules + compile-fail witnesses',
         design_ref='§5 C19'),
+    'C01': dict(
+        category='other',
+        text='Static, for every tree and input: sentence 2 of the property — "every chunk delivered to a caller outside the crate carries '
+             'its text". Conditional constant propagation over MIR under the assumption final_source = false, per StreamChunks impl and for '
+             'stream_chunks_default, through all crate-local callees and closures (shared boolean cells included): every reachable call of a '
+             'caller-supplied chunk callback passes Some(..), a `then_some` whose condition evaluates to true, or a chunk forwarded from a '
+             'stream that was itself requested with final_source = false; text-less emissions are proved unreachable (TEXT). A MapOptions with '
+             'final_source != false exists only as a by-reference temporary of a stream call (OPTS-LIT) and cannot be built outside the crate '
+             '(W-OPTS compile-fail witness). NOT decided: sentence 1 (concatenated chunk text equals source()).',
+        technique='SCCP-style conditional constant propagation on MIR with closure/cell linking + escape check + compile-fail witness',
+        design_ref='§5 C01'),
+    'C04': dict(
+        category='other',
+        text='Static: the leaves the property rests on — every mapping an OriginalSource emits is the identity (original line/column are '
+             'the very values reported as generated line/column, or both 0; source index 0; no name) and it announces exactly (0, its name '
+             'field, Some(its own text)), field roles taken from the public constructor (IDENT). NOT decided: provenance through '
+             'Concat/Replace/Cached, statement-start resolution, columns=false attribution.',
+        technique='def-use equality of aggregate operands on MIR',
+        design_ref='§5 C04'),
+    'C06': dict(
+        category='other',
+        text='Static, for every child/inner source: composites emit only indices of the numbering they announce — per index kind a composite '
+             'either forwards the child numbering unchanged or renumbers through its tables, and every OriginalLocation it builds takes the index '
+             'from the matching origin; a child-local index never leaks into a renumbered space (IDX: closure-, table- and adaptor-aware origin '
+             'analysis); ReplaceSource advances the original column only under the content check (ADVANCE). NOT decided: positions, that the '
+             'translated entry is the right one beyond its numbering, the amount of the advance.',
+        technique='index-space origin (taint-style) dataflow over MIR expression trees with closure capture and table summaries; guard provenance',
+        design_ref='§5 C06'),
+    'C08': dict(
+        category='other',
+        text='Static: all four (columns, final) streaming variants of a map apply sourceRoot, announce the enumeration index of the very '
+             'iteration and the content stored under it (ROOT); announcement loops complete before any point that can deliver a mapped chunk, '
+             'and variants that never announce names overwrite the name index with None before every emission (EAGER); the dispatch reaches a '
+             'text-carrying variant whenever final_source = false (TEXT). NOT decided: the segment walk (active-mapping state machine, cut-offs).',
+        technique='sibling cross-check of announcer call arguments, loop/dominator ordering, SCCP on MIR',
+        design_ref='§5 C08'),
+    'C09': dict(
+        category='other',
+        text='Static: the index-table discipline of the combined-map combinator — both index kinds are renumbered and both emitting '
+             'aggregates take source/name indices only from the announced (global) numbering or tables filled from it; outer/inner local '
+             'indices are used as keys only (IDX); each of its six de-duplication inserts stores len() and is followed by the announcement of '
+             'that value (PAIR). NOT decided: the binary search, identity-column adjustment, name matching, fallback semantics.',
+        technique='index-space origin dataflow + post-dominator pairing on MIR',
+        design_ref='§5 C09'),
+    'C11': dict(
+        category='other',
+        text='Static: in every chunk stream each new index is dense (len() of the de-duplication map) and announced with that same value '
+             'on every path after insertion (PAIR, 10 sites); eager announcers complete before delivery and never-announced names are never '
+             'emitted (EAGER); indices used come from the announced numbering (IDX); the mappings string consists only of base64 digits, "," '
+             'and ";" (ALPHABET, sound for that clause). NOT decided: strictly increasing positions, lines >= 1, positions inside the text.',
+        technique='post-dominator pairing, loop ordering, origin dataflow, constant byte-set dataflow on MIR',
+        design_ref='§5 C11'),
 }
 
 NOT_APPLICABLE = {
